@@ -311,6 +311,13 @@ func (d *duplexHTTPCall) makeRequest() {
 		}()
 	}
 	if err := d.validateResponse(response); err != nil {
+		if ctxErr := d.ctx.Err(); ctxErr != nil {
+			// Validation may read from the response body (unary Connect errors),
+			// and a read cut short by the end of the context must not be
+			// mistaken for a malformed response.
+			d.SetError(ctxErr)
+			return
+		}
 		d.SetError(err)
 		return
 	}
